@@ -585,7 +585,7 @@ func drawRHP3(t *rapid.T) R3Case {
 		c.Streams = append(c.Streams, s)
 	}
 	if rapid.IntRange(0, 9).Draw(t, "faulty") < 5 {
-		c.Fault = drawFault(t, false, packets)
+		c.Fault = drawFault(t, false, max(1, packets*2/3))
 	}
 	return c
 }
@@ -1201,7 +1201,7 @@ func drawGateway(t *rapid.T) GWCase {
 		c.Steps = append(c.Steps, st)
 	}
 	if rapid.IntRange(0, 9).Draw(t, "faulty") < 5 {
-		c.Fault = drawFault(t, false, packets)
+		c.Fault = drawFault(t, false, max(1, packets*2/3))
 	}
 	return c
 }
